@@ -9,7 +9,7 @@ META = {
             'with 1-7 states (one state, F empty, F = Q, unreachable states, chains); the three routines are compared with the Lean '
             'models (exact, names included) and checked directly: valid DFA, same alphabet, language equal (exact product BFS), '
             'states pairwise distinguishable, size between the Nerode-class counts of reachable / all states, input untouched, same '
-            'result under every hash seed; non-trivial = input with two equivalent states or an unreachable state; distinct by content; also modulo-n counter DFAs with random names (several refinement rounds), state names that look like class names (\'{q1,q2}\' next to equivalent q1, q2; \'a,b\': the recorded class-name finding is decided per case)',
+            'result under every hash seed; non-trivial = input with two equivalent states or an unreachable state; distinct by content; also modulo-n counter DFAs with random names (several refinement rounds), state names that look like class names (\'{q1,q2}\' next to equivalent q1, q2; \'a,b\': the recorded class-name finding is decided per case); one minimal DFA with ~256 states in which every pair of class positions occurs as a successor signature (table-filling model skipped there), names of 40+ characters with a common prefix',
     'assumptions': ['DFA.valid (constructor); state names \\w+'],
     'trusted_base': ['Spec: Gamba/Spec/Automata.lean (Dist, Reachable)'],
 }
@@ -26,7 +26,18 @@ def cases(ctx):
             if ctx.mine(i):
                 yield {'D': s}
     rng = ctx.rng
-    for i in range(700 if not thorough else 8000):
+    # one large minimal DFA in which every pair of class positions occurs as a successor signature (>= 11 classes: two-digit positions)
+    for i in range(1 if not thorough else 4):
+        yield {'D': gen.signature_complete_dfa(rng), 'sched': [], 'lean_ops': ['dfa_quotient', 'dfa_hopcroft']}
+    # long state names with a long common prefix (products of automata with descriptive names)
+    for i in range(30 if not thorough else 300):
+        s = gen.counter_dfa(rng) if i % 3 == 0 else gen.random_dfa(rng, 6)
+        pre = rng.choice(['number_of_letters_a_seen_so_far_modulo_three_is_', 'q' * 40 + '_', 'state(' + 'x' * 30 + ')'])
+        m = {q: pre + q for q in s['Q']}
+        s = {'Q': [m[q] for q in s['Q']], 'Sigma': s['Sigma'], 'delta': [[m[p], a, m[q]] for p, a, q in s['delta']], 'q0': m[s['q0']],
+             'F': [m[q] for q in s['F']]}
+        if not thorough or ctx.mine(i):
+            yield {'D': s, 'sched': [rng.randint(0, 7) for _ in range(10)]}
         s = gen.counter_dfa(rng) if i % 7 == 3 else gen.random_dfa(rng, 7)
         if i % 20 == 6 and len(s['Q']) <= 7:      # state names that look like class names (legal str names)
             pool = rng.choice([['q1', 'q2', '{q1,q2}', '{q1}', 'q3', '{q3}', 'q4'], ['a', 'b', 'a,b', 'c', '{a}', 'd', 'e']])
@@ -50,7 +61,8 @@ def cases(ctx):
 
 
 def lean_requests(c):
-    return [{'op': op, 'D': c['D'], 'sched': c.get('sched', [])} for op, _ in ROUTINES]
+    # `lean_ops` (large inputs): the table-filling model is cubic in |Q| on lists; it is then left to the independent oracles
+    return [{'op': op, 'D': c['D'], 'sched': c.get('sched', [])} for op, _ in ROUTINES if op in c.get('lean_ops', [o for o, _ in ROUTINES])]
 
 
 def judge(ctx, c, answers):
@@ -81,8 +93,11 @@ def judge(ctx, c, answers):
                 ctx.violation(op + '-class-name-collision', {'case': c, 'impl': str(got)[:300]}, finding_key='minimize-class-name-collision')
         ctx.case(c, False)
         return
-    for (op, f), la in zip(ROUTINES, answers):
-        got = call(f, D, limit=20)
+    ops = c.get('lean_ops', [o for o, _ in ROUTINES])
+    ans = iter(answers)
+    for (op, f) in ROUTINES:
+        la = next(ans) if op in ops else None
+        got = call(f, D, limit=60)
         if 'ok' not in got:
             ctx.violation(op + '-raises', {'case': c, 'impl': got})
             continue
@@ -106,7 +121,9 @@ def judge(ctx, c, answers):
                 problems.append('size %d not in [%d, %d]' % (len(M.Q), n_reach, n_all))
         if problems:
             ctx.violation(op, {'case': c, 'problems': problems, 'impl': cm})
-        if 'ok' not in la or enc.canon_dfa_spec(la['ok']) != cm:
+        if la is None:
+            ctx.count(op + ':checked-by-oracles-only')
+        elif 'ok' not in la or enc.canon_dfa_spec(la['ok']) != cm:
             ctx.violation('correspondence:' + op, {'case': c, 'impl': cm, 'model': la}, no_input=not problems)
         ctx.count(op)
     if enc.canon_dfa(D) != before:
